@@ -605,6 +605,209 @@ pub fn check_rpc(case: &RpcCase, st: &mut Stats) -> Result<(), String> {
     })
 }
 
+
+// ---------------------------------------------------------------------------------------------
+// L7: a whole network node (listener, accept loop, per-connection tasks) against hostile TCP clients
+
+#[derive(Debug, Clone, Serialize, Deserialize, Hash, PartialEq)]
+pub enum Hostile {
+    /// Connect and reset the connection at once (SO_LINGER 0), nothing is ever sent.
+    Reset,
+    /// Connect and close cleanly at once.
+    Close,
+    /// Connect, send these bytes in the clear, close.
+    Raw(Vec<u8>),
+    /// The real preface (encryption choice, noise, endpoint choice), then garbage where the handshake frame belongs.
+    AfterPreface { consensus_endpoint: bool, garbage: Vec<u8>, reset: bool },
+    /// The real preface and a genuine gossip handshake, then garbage where the multiplexer handshake belongs.
+    AfterHandshake { garbage: Vec<u8>, reset: bool },
+}
+
+#[derive(Debug, Clone, Serialize, Deserialize, Hash)]
+pub struct LiveCase {
+    /// The node accepts at most one connection per this many milliseconds (0 = unlimited): connections wait in the backlog.
+    accept_every_ms: u16,
+    clients: Vec<Hostile>,
+    /// Hostile clients act at the same instant (else one after the other).
+    burst: bool,
+}
+
+pub fn gen_live(ch: &mut Choices) -> LiveCase {
+    let bytes = |ch: &mut Choices| -> Vec<u8> {
+        match ch.below(4) {
+            0 => vec![],
+            1 => vec![0xff; 1 + ch.below(8)],
+            2 => (0..ch.below(40)).map(|_| ch.raw() as u8).collect(),
+            _ => {
+                // a length prefix announcing more than will ever come
+                let mut v = (ch.pick(&[5u32, 1 << 20, u32::MAX])).to_le_bytes().to_vec();
+                v.extend((0..ch.below(4)).map(|_| ch.raw() as u8));
+                v
+            }
+        }
+    };
+    let n = 1 + ch.below(5);
+    let clients = (0..n)
+        .map(|_| match ch.below(7) {
+            0 | 1 => Hostile::Reset,
+            2 => Hostile::Close,
+            3 => Hostile::Raw(bytes(ch)),
+            4 | 5 => Hostile::AfterPreface { consensus_endpoint: ch.bool(), garbage: bytes(ch), reset: ch.bool() },
+            _ => Hostile::AfterHandshake { garbage: bytes(ch), reset: ch.bool() },
+        })
+        .collect();
+    LiveCase { accept_every_ms: ch.pick(&[0u16, 0, 20, 60]), clients, burst: ch.bool() }
+}
+
+pub fn check_live(case: &LiveCase, st: &mut Stats) -> Result<(), String> {
+    use rand::SeedableRng as _;
+    use tokio::io::AsyncWriteExt as _;
+    use zksync_concurrency::scope;
+    use zksync_consensus_engine::{testonly::in_memory, EngineManager};
+    use zksync_consensus_network::{testonly::Instance, verif::NoiseTcp};
+    let rt = tokio::runtime::Builder::new_current_thread().enable_all().build().unwrap();
+    rt.block_on(async {
+        let ctx = &ctx::root();
+        let rng = &mut rand::rngs::StdRng::seed_from_u64(13);
+        let mut setup = validator::testonly::Setup::new_without_pregenesis(rng, 1);
+        setup.push_blocks_v2(rng, 2);
+        let setup = &setup;
+        let nk = gen::node_keys();
+        let node_pub = nk[9].public();
+        let node_pub = &node_pub;
+        let st2 = &mut *st;
+        let res: Result<(), String> = scope::run!(ctx, |ctx, s| async move {
+            let st = st2;
+            let eng = in_memory::Engine::new_random(setup, setup.first_block());
+            let (mgr, run) = EngineManager::new(ctx, Box::new(eng), time::Duration::seconds(60)).await.map_err(|e| format!("INFRA: EngineManager::new: {e:?}"))?;
+            s.spawn_bg(async { run.run(ctx).await.map_err(|e| format!("INFRA: engine runner: {e:#}")) });
+            let mut cfg = crate::c12::gossip_cfg(&nk[9]);
+            let listen = zksync_concurrency::net::tcp::testonly::reserve_listener();
+            cfg.server_addr = listen;
+            cfg.public_addr = (*listen).into();
+            cfg.tcp_accept_rate = if case.accept_every_ms == 0 { limiter::Rate::INF } else { limiter::Rate { burst: 1, refresh: time::Duration::milliseconds(case.accept_every_ms as i64) } };
+            cfg.rpc.push_block_store_state_rate = limiter::Rate::INF;
+            let addr: std::net::SocketAddr = *listen;
+            let (_node, runner) = Instance::new(cfg, mgr);
+            let ended: Arc<Mutex<Option<Result<(), String>>>> = Arc::default();
+            {
+                let ended = ended.clone();
+                s.spawn_bg(async move {
+                    let r = runner.run(ctx).await;
+                    *ended.lock().unwrap() = Some(r.map_err(|e| format!("{e:#}")));
+                    Ok(())
+                });
+            }
+            // wait until the node listens
+            let mut up = false;
+            for _ in 0..500 {
+                if let Ok(c) = tokio::net::TcpStream::connect(addr).await {
+                    drop(c);
+                    up = true;
+                    break;
+                }
+                tokio::time::sleep(std::time::Duration::from_millis(5)).await;
+            }
+            if !up {
+                return Err("INFRA: the node did not start listening within 2.5 s".into());
+            }
+            let genesis = setup.genesis.hash();
+            let hostile = |h: Hostile, key: usize| async move {
+                match h {
+                    Hostile::Reset => {
+                        if let Ok(c) = tokio::net::TcpStream::connect(addr).await {
+                            let _ = c.set_linger(Some(std::time::Duration::ZERO));
+                            drop(c);
+                        }
+                    }
+                    Hostile::Close => {
+                        if let Ok(mut c) = tokio::net::TcpStream::connect(addr).await {
+                            let _ = c.shutdown().await;
+                        }
+                    }
+                    Hostile::Raw(b) => {
+                        if let Ok(mut c) = tokio::net::TcpStream::connect(addr).await {
+                            let _ = c.write_all(&b).await;
+                            let _ = c.shutdown().await;
+                        }
+                    }
+                    Hostile::AfterPreface { consensus_endpoint, garbage, reset } => {
+                        if let Ok(mut c) = NoiseTcp::preface_connect(ctx, addr, consensus_endpoint).await {
+                            let _ = c.write_all(&garbage).await;
+                            let _ = c.flush().await;
+                            if !reset {
+                                let _ = c.shutdown().await;
+                            }
+                        }
+                    }
+                    Hostile::AfterHandshake { garbage, reset } => {
+                        if let Ok(mut c) = NoiseTcp::preface_connect(ctx, addr, false).await {
+                            let pcfg = crate::c12::gossip_cfg(&nk[key]);
+                            let _ = hook::gossip::handshake_outbound(ctx, &pcfg, genesis, &mut c, &nk[9].public()).await;
+                            let _ = c.write_all(&garbage).await;
+                            let _ = c.flush().await;
+                            if !reset {
+                                let _ = c.shutdown().await;
+                            }
+                        }
+                    }
+                }
+            };
+            if case.burst {
+                let mut all = vec![];
+                for (i, h) in case.clients.iter().cloned().enumerate() {
+                    all.push(hostile(h, i % 4));
+                }
+                for f in all {
+                    // started in order without waiting for the node in between
+                    tokio::time::timeout(std::time::Duration::from_secs(8), f).await.map_err(|_| "INFRA: a hostile client did not get through its script within 8 s".to_string())?;
+                }
+            } else {
+                for (i, h) in case.clients.iter().cloned().enumerate() {
+                    tokio::time::timeout(std::time::Duration::from_secs(8), hostile(h, i % 4)).await.map_err(|_| "INFRA: a hostile client did not get through its script within 8 s".to_string())?;
+                    tokio::time::sleep(std::time::Duration::from_millis(case.accept_every_ms as u64 + 3)).await;
+                }
+            }
+            // give the node the time to accept everything that waits in its backlog
+            tokio::time::sleep(std::time::Duration::from_millis((case.accept_every_ms as u64 + 2) * (case.clients.len() as u64 + 1) + 20)).await;
+            for h in &case.clients {
+                st.class(match h {
+                    Hostile::Reset => "client_resets_at_once",
+                    Hostile::Close => "client_closes_at_once",
+                    Hostile::Raw(_) => "client_sends_cleartext_garbage",
+                    Hostile::AfterPreface { .. } => "client_turns_hostile_after_the_preface",
+                    Hostile::AfterHandshake { .. } => "client_turns_hostile_after_the_handshake",
+                });
+            }
+            st.nontrivial(common::fingerprint(case));
+            st.sample(|| serde_json::to_value(case).unwrap());
+            if let Some(r) = ended.lock().unwrap().clone() {
+                return Err(format!("the node's network component ended ({r:?}) after hostile TCP clients {:?} - every node task that depends on it goes down with it", case.clients));
+            }
+            // an honest peer must still be served: connect, handshake, announce a block range, get the acknowledgement
+            let probe = crate::c19::honest_probe(ctx, s, addr, &nk[5], node_pub, setup);
+            match tokio::time::timeout(std::time::Duration::from_secs(12), probe).await {
+                Ok(Ok(())) => {}
+                Ok(Err(e)) if e.starts_with("INFRA") => return Err(e),
+                Ok(Err(e)) => {
+                    let ended = ended.lock().unwrap().clone();
+                    return Err(format!("after hostile TCP clients {:?} an honest peer is no longer served: {e} (network component: {ended:?})", case.clients));
+                }
+                Err(_) => {
+                    let ended = ended.lock().unwrap().clone();
+                    return Err(format!("after hostile TCP clients {:?} an honest peer is not served within 12 s (network component: {ended:?})", case.clients));
+                }
+            }
+            if let Some(r) = ended.lock().unwrap().clone() {
+                return Err(format!("the node's network component ended ({r:?}) after hostile TCP clients {:?}", case.clients));
+            }
+            Ok(())
+        })
+        .await;
+        res
+    })
+}
+
 pub fn main(env: &Env) -> i32 {
     // a process death (abort inside a scope task, stack overflow, ...) while a case runs is a violation of C10 with that case as the replay
     common::crashdump::arm(&env.property);
@@ -616,6 +819,7 @@ pub fn main(env: &Env) -> i32 {
             "noise_garbage" => common::replay_case::<NoiseCase>(case, check_noise),
             "mux_raw" => common::replay_case::<MuxRawCase>(case, check_mux_raw),
             "rpc_garbage" => common::replay_case::<RpcCase>(case, check_rpc),
+            "live_node" => common::replay_case::<LiveCase>(case, check_live),
             p => Err(format!("unknown part {p}")),
         };
         return env.finish_replay(&path, r);
@@ -624,6 +828,7 @@ pub fn main(env: &Env) -> i32 {
     parts.extend(common::run_regress::<DecCase>(env, "decoders", check_dec));
     parts.extend(common::run_regress::<MuxRawCase>(env, "mux_raw", check_mux_raw));
     parts.extend(common::run_regress::<RpcCase>(env, "rpc_garbage", check_rpc));
+    parts.extend(common::run_regress::<LiveCase>(env, "live_node", check_live));
     let n = entries().len();
     parts.push(run_proptest(
         env,
@@ -683,9 +888,18 @@ pub fn main(env: &Env) -> i32 {
         || Choices::strategy(400).prop_map(|mut ch| gen_rpc(&mut ch)),
         check_rpc,
     ));
+    parts.push(run_proptest(
+        env,
+        "live_node",
+        "L7: a whole network node (the real Network runner: listener, rate-limited accept loop, per-connection tasks, gossip handlers) on a loopback port against 1-5 hostile TCP clients, one after the other or all at once: connect-and-reset, connect-and-close, clear-text garbage, the real preface followed by garbage (either endpoint), the real preface and a genuine handshake followed by garbage (with a clean close or a reset); the node accepts connections unthrottled or one per 20 / 60 ms, so that hostile connections wait in its backlog; \
+         oracle: the network component keeps running (its task has not ended) and an honest peer that connects afterwards completes preface, noise and handshake and gets a block-range announcement acknowledged. Every case is non-trivial. Environment trouble (ports, timeouts of the harness' own clients) is inconclusive",
+        PartOpts { cases: env.tier.pick(320, 8_000), max_shrink_iters: 60, samples: 2 },
+        || Choices::strategy(60).prop_map(|mut ch| gen_live(&mut ch)),
+        check_live,
+    ));
     env.finish(
         "exploration",
-        "layered generated inputs (decoders, frames, noise, multiplexer, RPC) with per-case panic capture; the consensus-handler layer is reported by the simulator engine's `handlers` part (merged into the same evidence file); a whole-node layer over TCP was not built",
+        "layered generated inputs (decoders, frames, noise, multiplexer, RPC, whole network node over TCP) with per-case panic capture; the consensus-handler layer is reported by the simulator engine's `handlers` part (merged into the same evidence file)",
         &["a caught panic equals a process abort of a real node (the repository builds with panic=abort)", "overflow-check panics exist only in builds with overflow checks (the repository's dev/test profile)"],
         parts,
     )
